@@ -3,7 +3,6 @@ package main
 // Helpers for engine-B obligations: anchors by role, comparison with specs.
 
 import (
-	"time"
 	"fmt"
 	"go/types"
 	"math/big"
@@ -11,6 +10,7 @@ import (
 	"sort"
 	"strconv"
 	"strings"
+	"time"
 
 	"golang.org/x/tools/go/ssa"
 )
@@ -1924,10 +1924,24 @@ func (x *Extractor) caseFeasible(as0 []Assumption) bool {
 	return true
 }
 
+// caseWorkUnits: the bound of one case analysis, in units of the deterministic
+// work clock (about 15 s on an idle core of the sandbox; the deepest analysis
+// needed on the pinned tree uses 1.7M, the deepest among the stored
+// refactorings 3.5M).
+const caseWorkUnits = 12000000
+
 func (x *Extractor) EquivByCases(a, b *RF, depth int) bool {
 	if depth == 0 {
 		x.caseBudget = 4000
-		x.caseDeadline = time.Now().Add(10 * time.Second)
+		x.caseWorkLimit = workUnits + caseWorkUnits
+		if os.Getenv("GMSA_TIMING") != "" {
+			w0, t0 := workUnits, time.Now()
+			defer func() {
+				if d := workUnits - w0; d > 20000 {
+					fmt.Printf("TIMING-CASES units=%d wall=%.2fs\n", d, time.Since(t0).Seconds())
+				}
+			}()
+		}
 	}
 	if a.Equal(b) {
 		return true
@@ -1935,7 +1949,7 @@ func (x *Extractor) EquivByCases(a, b *RF, depth int) bool {
 	// bounded: a comparison that cannot be decided within the budget is
 	// reported as a mismatch (fail-closed), never left running
 	x.caseBudget--
-	if depth > 10 || x.caseBudget < 0 || (x.caseBudget%16 == 0 && time.Now().After(x.caseDeadline)) {
+	if depth > 10 || x.caseBudget < 0 || workUnits > x.caseWorkLimit {
 		x.caseBudget = -1
 		return false
 	}
@@ -2244,6 +2258,12 @@ func solveZero(s *Sym, d *RF, exprs ...*RF) map[AtomID]*RF {
 		if self {
 			continue
 		}
+		// an integer equation solved for an atom with coefficient other than ±1
+		// gives a value no longer recognisable as whole: the equality then stays
+		// an assumption only
+		if s.Integral(d) && !s.Integral(val) {
+			continue
+		}
 		return map[AtomID]*RF{id: val}
 	}
 	return nil
@@ -2543,7 +2563,7 @@ func (b *B) fullScanFrom(rule, construct, where string, fc *FC, idx, n *RF, maxF
 		return false
 	}
 	want := s.Cmp("<", idx, n)
-	if !(cond.Equal(want) || b.X.EquivByCases(cond, want, 0)) {
+	if !(cond.Equal(want) || b.X.EquivByCases(cond, want, 0) || (len(fc.Assume) > 0 && b.X.EquivByCasesUnder(cond, want, fc.Assume))) {
 		b.R.Fail(rule, construct, where, "the loop runs while "+clip(cond.String(), 120)+", not while index < "+clip(n.String(), 60)+": not every element is visited")
 		return false
 	}
